@@ -21,6 +21,7 @@ analysed like any other function.  Helpers that cannot be inlined stay as calls
 from __future__ import annotations
 
 import ast
+import os
 import copy
 import itertools
 
@@ -1076,6 +1077,24 @@ def _hoist_nested_helper_calls(mod, stmts, caller):
                         else:
                             s.test.operand = repl
             out.extend(pre)
+        elif isinstance(s, ast.For):
+            # a helper call in the iterable of a loop (evaluated once, before the loop):  for v in helper(a).items()  ->  tmp = helper(a); for v in tmp.items()
+            pre = []
+            for c in list(ast.walk(s.iter)):
+                if isinstance(c, ast.Call):
+                    h = _module_helper(mod, c.func, caller)
+                    if h is not None and h is not caller and _single_expr_helper(h) is None and not _has(h, (ast.Yield, ast.YieldFrom)) \
+                            and all(_pure_arg(a) for a in c.args) and not c.keywords and not pre:
+                        tmp = f"_{h.name.strip('_')}_val{next(_counter)}"
+                        pre.append(ast.copy_location(ast.Assign(targets=[ast.Name(id=tmp, ctx=ast.Store())], value=_clone(c)), s))
+
+                        class RepI(ast.NodeTransformer):
+                            def visit_Call(self_, n):
+                                if n is c:
+                                    return ast.copy_location(ast.Name(id=tmp, ctx=ast.Load()), n)
+                                return self_.generic_visit(n)
+                        s.iter = RepI().visit(s.iter)
+            out.extend(pre)
         out.append(s)
     return out
 
@@ -1265,6 +1284,9 @@ def _propagate_single_use(stmts, fn_loads, fn_stores):
                 header = ("iter", nxt.iter)      # a source chosen by a condition, then iterated
             elif isinstance(nxt, ast.Assign) and not any(isinstance(n, ast.Name) and n.id == x for t in nxt.targets for n in ast.walk(t)):
                 header = ("value", nxt.value)
+            elif isinstance(nxt, ast.Expr) and isinstance(nxt.value, ast.Call) and _pure_arg(nxt.value.func) and len(nxt.value.args) == 1 and not nxt.value.keywords \
+                    and isinstance(nxt.value.args[0], ast.Name) and nxt.value.args[0].id == x and isinstance(s.value, ast.IfExp):
+                header = ("value", nxt.value)        # v = A if c else B; f(v): the choice is made in the call (and split into two calls afterwards)
             if header is not None and any(isinstance(c_, ast.Call) and isinstance(c_.func, ast.Name) and c_.func.id == x for c_ in ast.walk(header[1])):
                 header = None      # the local is a callable that is chosen first and called then: keep the two steps
             if header is not None and sum(1 for n in ast.walk(header[1]) if isinstance(n, ast.Name) and n.id == x and isinstance(n.ctx, ast.Load)) == 1 \
@@ -1639,6 +1661,190 @@ def _propagate_option_flags(fn):
     return R().visit(fn) if flags else fn
 
 
+def _walk_blocks(stmts, f):
+    """apply f to every statement list (innermost first), not entering nested defs / classes"""
+    for s in stmts:
+        if isinstance(s, (ast.FunctionDef, ast.AsyncFunctionDef, ast.ClassDef)):
+            continue
+        for fld in ("body", "orelse", "finalbody"):
+            b = getattr(s, fld, None)
+            if isinstance(b, list) and b and isinstance(b[0], ast.stmt):
+                setattr(s, fld, _walk_blocks(b, f))
+        for hnd in getattr(s, "handlers", []) or []:
+            hnd.body = _walk_blocks(hnd.body, f)
+        for cs in getattr(s, "cases", []) or []:
+            cs.body = _walk_blocks(cs.body, f)
+    return f(stmts)
+
+
+def _return_temp(fn):
+    """x = E; return x   ->   return E      (x is read nowhere else)"""
+    loads = {}
+    for n in ast.walk(fn):
+        if isinstance(n, ast.Name) and isinstance(n.ctx, ast.Load):
+            loads[n.id] = loads.get(n.id, 0) + 1
+    pairs = {}
+
+    def count(stmts):
+        for a, b in zip(stmts, stmts[1:]):
+            if isinstance(a, ast.Assign) and len(a.targets) == 1 and isinstance(a.targets[0], ast.Name) and isinstance(b, ast.Return) \
+                    and isinstance(b.value, ast.Name) and b.value.id == a.targets[0].id:
+                pairs[b.value.id] = pairs.get(b.value.id, 0) + 1
+        return stmts
+    fn.body = _walk_blocks(fn.body, count)
+    ok = {x for x, k in pairs.items() if loads.get(x) == k}
+    if not ok:
+        return fn
+
+    def fold(stmts):
+        out = []
+        i = 0
+        while i < len(stmts):
+            a = stmts[i]
+            b = stmts[i + 1] if i + 1 < len(stmts) else None
+            if isinstance(a, ast.Assign) and len(a.targets) == 1 and isinstance(a.targets[0], ast.Name) and a.targets[0].id in ok and isinstance(b, ast.Return) \
+                    and isinstance(b.value, ast.Name) and b.value.id == a.targets[0].id:
+                out.append(ast.copy_location(ast.Return(value=a.value), a))
+                i += 2
+                continue
+            out.append(a)
+            i += 1
+        return out
+    fn.body = _walk_blocks(fn.body, fold)
+    return fn
+
+
+def _positive_tests(fn):
+    """if not C: A else: B   ->   if C: B else: A       (an else arm exists; one polarity for the rules)"""
+    def f(stmts):
+        for s in stmts:
+            if isinstance(s, ast.If) and s.orelse and isinstance(s.test, ast.UnaryOp) and isinstance(s.test.op, ast.Not) \
+                    and not (len(s.orelse) == 1 and isinstance(s.orelse[0], ast.If)):
+                s.test = s.test.operand
+                s.body, s.orelse = s.orelse, s.body
+        return stmts
+    fn.body = _walk_blocks(fn.body, f)
+    return fn
+
+
+def _merge_nested_ifs(fn):
+    """if A: (if B: S)   ->   if A and B: S         (neither has an else arm)"""
+    def f(stmts):
+        for s in stmts:
+            while isinstance(s, ast.If) and not s.orelse and len(s.body) == 1 and isinstance(s.body[0], ast.If) and not s.body[0].orelse:
+                inner = s.body[0]
+                left = list(s.test.values) if isinstance(s.test, ast.BoolOp) and isinstance(s.test.op, ast.And) else [s.test]
+                right = list(inner.test.values) if isinstance(inner.test, ast.BoolOp) and isinstance(inner.test.op, ast.And) else [inner.test]
+                s.test = ast.copy_location(ast.BoolOp(op=ast.And(), values=left + right), s.test)
+                s.body = inner.body
+        return stmts
+    fn.body = _walk_blocks(fn.body, f)
+    return fn
+
+
+def _else_after_return(fn):
+    """if C: ...; return X  else: REST    ->    if C: ...; return X      REST      (the guard-clause shape)"""
+    chained = set()
+    for n in ast.walk(fn):
+        if isinstance(n, ast.If) and len(n.orelse) == 1 and isinstance(n.orelse[0], ast.If):
+            chained.add(id(n.orelse[0]))      # an elif arm: the chain keeps its shape
+            chained.add(id(n))
+
+    def f(stmts):
+        out = []
+        for s in stmts:
+            out.append(s)
+            if id(s) in chained:
+                continue
+            if isinstance(s, ast.If) and s.orelse and s.body and not isinstance(s.body[-1], (ast.Return, ast.Raise)) and isinstance(s.orelse[-1], (ast.Return, ast.Raise)):
+                t = s.test
+                s.test = t.operand if isinstance(t, ast.UnaryOp) and isinstance(t.op, ast.Not) else ast.copy_location(ast.UnaryOp(op=ast.Not(), operand=t), t)
+                s.body, s.orelse = s.orelse, s.body
+            if isinstance(s, ast.If) and s.orelse and s.body and isinstance(s.body[-1], (ast.Return, ast.Raise)):
+                rest = s.orelse
+                s.orelse = []
+                out.extend(f(rest))
+        return out
+    fn.body = _walk_blocks(fn.body, f)
+    return fn
+
+
+def _assign_by_condition(fn):
+    """if C: x = A else: x = B    ->    x = A if C else B"""
+    def f(stmts):
+        out = []
+        for s in stmts:
+            if isinstance(s, ast.If) and len(s.body) == 1 and len(s.orelse) == 1 and all(
+                    isinstance(a, ast.Assign) and len(a.targets) == 1 and isinstance(a.targets[0], ast.Name) for a in (s.body[0], s.orelse[0])) \
+                    and s.body[0].targets[0].id == s.orelse[0].targets[0].id:
+                v = ast.copy_location(ast.IfExp(test=s.test, body=s.body[0].value, orelse=s.orelse[0].value), s)
+                out.append(ast.copy_location(ast.Assign(targets=[s.body[0].targets[0]], value=v), s))
+            else:
+                out.append(s)
+        return out
+    fn.body = _walk_blocks(fn.body, f)
+    return fn
+
+
+def _allocator_roles(fn):
+    """register_assignment.assign_registers / assign_colors: the rules speak of the allocator's tables by their role.  The locals that
+    play these roles are found by what is done with them and given the role's name, so that a rename of a local changes nothing:
+      called_from                 D in   D.get(<scope>, ..).issubset(..)              (the order in which scopes are processed)
+      blocked_registers_by_scope  D in   for c in called_from.get(..): .. D.get(c, ..)  (what the callers hand down)
+      registers_by_scope          D in   for s in data.symbols: .. D.get(s, ..)        (the result)
+      mapping                     D in   D[<sym>.code_expr] = f"r{n}"
+      free_colors / active        assign_colors: F in <sym>._color = F.pop(),  A in A.append((<end>, <sym>._color))"""
+    found = {}
+
+    def note(role, name):
+        found.setdefault(role, name)
+    for n in ast.walk(fn):
+        if isinstance(n, ast.Call) and isinstance(n.func, ast.Attribute) and n.func.attr == "issubset" and isinstance(n.func.value, ast.Call) \
+                and isinstance(n.func.value.func, ast.Attribute) and n.func.value.func.attr == "get" and isinstance(n.func.value.func.value, ast.Name):
+            note("called_from", n.func.value.func.value.id)
+        if isinstance(n, ast.Assign) and isinstance(n.value, ast.JoinedStr) and n.value.values and isinstance(n.value.values[0], ast.Constant) and n.value.values[0].value == "r":
+            for t in n.targets:
+                if isinstance(t, ast.Subscript) and isinstance(t.value, ast.Name):
+                    note("mapping", t.value.id)
+        if isinstance(n, ast.Assign) and any(isinstance(t, ast.Attribute) and t.attr == "_color" for t in n.targets) and isinstance(n.value, ast.Call) \
+                and isinstance(n.value.func, ast.Attribute) and n.value.func.attr == "pop" and isinstance(n.value.func.value, ast.Name):
+            note("free_colors", n.value.func.value.id)
+        if isinstance(n, ast.Call) and isinstance(n.func, ast.Attribute) and n.func.attr == "append" and isinstance(n.func.value, ast.Name) and n.args \
+                and isinstance(n.args[0], ast.Tuple) and len(n.args[0].elts) == 2 and norm_(n.args[0].elts[1]).endswith("._color"):
+            note("active", n.func.value.id)
+    cf = found.get("called_from")
+    for lp in ast.walk(fn):
+        if not isinstance(lp, ast.For) or not isinstance(lp.target, ast.Name):
+            continue
+        it = lp.iter
+        gets = [c for c in ast.walk(lp) if isinstance(c, ast.Call) and isinstance(c.func, ast.Attribute) and c.func.attr == "get" and isinstance(c.func.value, ast.Name)
+                and c.args and isinstance(c.args[0], ast.Name) and c.args[0].id == lp.target.id]
+        if cf and isinstance(it, ast.Call) and isinstance(it.func, ast.Attribute) and it.func.attr == "get" and isinstance(it.func.value, ast.Name) and it.func.value.id == cf:
+            for c in gets:
+                note("blocked_registers_by_scope", c.func.value.id)
+        if norm_(it).endswith("data.symbols"):
+            for c in gets:
+                note("registers_by_scope", c.func.value.id)
+    ren = {v: k for k, v in found.items() if v != k}
+    if not ren:
+        return fn
+    taken = {n.id for n in ast.walk(fn) if isinstance(n, ast.Name)} | {a.arg for a in fn.args.args}
+    if any(k in taken for k in ren.values()) or len(set(found.values())) != len(found):
+        return fn      # a role name is in use for something else: leave the function as written
+    return _Rename(ren).visit(fn)
+
+
+_SHAPE_STEPS = os.environ.get("SA_SHAPE_STEPS", "ret,pos,merge,else,cond").split(",")
+
+
+def _shape_normalise(fn):
+    for key, step in (("ret", _return_temp), ("else", _else_after_return), ("pos", _positive_tests), ("cond", _assign_by_condition), ("merge", _merge_nested_ifs)):
+        if key in _SHAPE_STEPS:
+            fn = step(fn)
+    return fn
+
+
+
 def canonical_function(mod, fn, depth=3):
     """inline helpers, desugar comprehension-fed loops, propagate module literals and trivial aliases."""
     cache = getattr(mod, "_canon_cache", None)
@@ -1648,6 +1854,9 @@ def canonical_function(mod, fn, depth=3):
         return cache[id(fn)][0]
     pre = _clone(fn)
     pre.qual, pre.module, pre.cls = fn.qual, fn.module, getattr(fn, "cls", None)
+    pre = _shape_normalise(pre)
+    if getattr(mod, "name", "") == "register_assignment" and fn.qual in ("assign_registers", "assign_colors"):
+        pre = _allocator_roles(pre)
     _inline_local_closures(pre)
     _expand_dispatch_tables(mod, pre)
     pre.body = _desugar_reduce(pre.body)
